@@ -1,12 +1,14 @@
-from harness import common, engine_deser
+from harness import common, engine_deser, sublaw
 
 
 def main() -> int:
     rep = common.Report("C03", "model_checking")
     rep.assumptions = ["the reference semantics (spec/DataModel.tla) is my reading of the documented data model",
                        "regex matching and int()/float() parsing are Python's own, carried as string attributes",
-                       "bounded universe (spec/Universe.tla) + seeded random deep types beyond it"]
+                       "bounded universe (spec/Universe.tla) + seeded random deep types beyond it",
+                       "classes derived from a primitive (class Port(int)) are outside the universe's encoding: the law 'behaves as its primitive base, the value being an instance of the class' is checked on the real code on both sides (harness/sublaw.py)"]
     engine_deser.run("C03", rep, exotic=True)
+    rep.set("subprimitive_law_calls", sublaw.run(rep, "C03", [{}, {"coerce": True}]))
     return rep.finish()
 
 
